@@ -9,7 +9,7 @@ use verif_native::*;
 fn main() {
     let mut rep = Report::new();
     let d = std::cmp::min(Report::depth().saturating_sub(2), 3);
-    let leaves = ["String", "i32", "bool", "User", "Item"];
+    let leaves = ["String", "i32", "bool", "User", "Item", "Über"];
     let tr = TypeResolver::new();
     let ca = CommandAnalyzer::new();
     for t in rtrees(d, &leaves) {
@@ -27,6 +27,20 @@ fn main() {
             let missing: Vec<&String> = cs.iter().filter(|c| !names.contains(*c)).collect();
             if missing.is_empty() { Ok(format!("{:?}", cs)) } else { Err(format!("project types {:?} occur in the type but extract_type_names harvested only {:?}", missing, { let mut v: Vec<_> = names.iter().collect(); v.sort(); v })) }
         });
+    }
+    // C18: a mapped source name must reach the visitors verbatim (the mapping lookup is by exact name),
+    // alone and under every constructor
+    for name in ["PathBuf", "Uuid", "DateTime<Utc>", "DateTime<chrono::Utc>", "Tagged<String, u32>", "a::b::Foo<X, Y>", "Über"] {
+        for (ctx, wrap) in [("{}", 0), ("Option<{}>", 1), ("Vec<{}>", 2), ("HashMap<String, {}>", 3), ("({}, u32)", 4), ("Result<{}, String>", 5)] {
+            let s = ctx.replace("{}", name);
+            rep.case("custom_name_survives_parsing", &s, &|| {
+                let got = tr.parse_type_structure(&s);
+                let mut cs = BTreeSet::new();
+                customs(&got, &mut cs);
+                let _ = wrap;
+                if cs.len() == 1 && cs.contains(name) { Ok(show(&got)) } else { Err(format!("the named type `{}` is not a Custom leaf of the parsed tree {} (custom leaves: {:?})", name, show(&got), cs)) }
+            });
+        }
     }
     rep.finish()
 }
